@@ -33,8 +33,11 @@ EXTENDS FillSem, Json
 
 CONSTANTS MaxPre, MaxN, PreAlphabet, Accs, Posts, FlowKinds, Drivers, Bufs,
           Places,      \* Split: the chain is the only branch ("alone") or has sibling branches: "first" [chain, A, B],
-                       \* "middle" [A, chain, B], "last" [A, B, chain]; A changes the context of the values it is
-                       \* given in place (a Variable), B is an ordinary branch
+                       \* "middle" [A, chain, B], "last" [A, B, chain], "afterstop" [S, chain, S']; A changes the context of the values it is
+                       \* given in place (a Variable), B is an ordinary branch, S = (Slice(1), acc) and S' = (Slice(2), acc)
+                       \* are fill chains that raise LenaStopFill at the values with index SibStop = 1 and 2
+          StopFlag,    \* "per_branch": LenaStopFill of one branch concerns that branch only (documented);
+                       \* "per_buffer": the flag is kept for the later branches of the block (must be rejected)
           CopyMode     \* "per_branch": every branch but the last gets its own deep copy of the block (documented);
                        \* "shared": one copy handed to all branches but the last (must be rejected)
 
@@ -48,10 +51,11 @@ AlphaQuick == CtxSel \cup {Map("tag"), Map("inc"), Map("var"), Filter("even"), F
                Slice(0, 0, 1), RunIf("even", "inc"), RunIf("lt2", "drop")}
 AlphaMid == AlphaQuick \cup {Map("dbl"), Map("tag"), Filter("lt2"), Slice(2, 3, 1), Slice(0, 3, 2), Slice(3, None, 1),
                              RunIf("all", "dbl")}
-AlphaFull == AlphaMid \cup AllSlices \cup {Map("upd"), Filter("all"), RunIf("even", "drop")}
-AlphaSmall == {Map("inc"), Map("var"), Filter("even"), Slice(0, 2, 1), Slice(1, 3, 2), RunIf("lt2", "drop"),
+AlphaFull == AlphaMid \cup AllSlices \cup {VarAttr("run"), VarAttr("fill"), VarAttr("compute"), VarAttr("request"),
+              VarAttr("fill_into"), Map("upd"), Filter("all"), RunIf("even", "drop")}
+AlphaSmall == {Map("inc"), VarAttr("run"), Filter("even"), Slice(0, 2, 1), Slice(1, 3, 2), RunIf("lt2", "drop"),
                CFilter("odd", "str"), CFilter("variable", "fn"), CRunIf("odd", "inc")}
-AlphaThorough == AlphaSmall \cup {Map("tag"), CFilter("t", "str"), Filter("none")}
+AlphaThorough == AlphaSmall \cup {Map("var"), VarAttr("fill"), Map("tag"), CFilter("t", "str"), Filter("none")}
 AlphaDeep == {Map("inc"), Map("var"), Filter("even"), Slice(0, 2, 1), Slice(1, 3, 2), CFilter("odd", "str"), CRunIf("odd", "inc")}
 PostsSmall == {<<>>, <<Map("inc")>>, <<Sum>>}
 AccsSmall == {"sum", "store1"}
@@ -59,8 +63,8 @@ BufQuick == {1, 2, 3, 1000, None}
 BufOne == {2}
 PostsQuick == {<<>>, <<Map("inc")>>, <<Filter("even")>>, <<Sum>>}
 PostsMid == PostsQuick \cup {<<Map("var"), Slice(0, 1, 1)>>, <<Count>>}
-AccsQuick == {"sum", "store1", "last"}
-AccsAll == {"sum", "store1", "last", "cnt"}
+AccsQuick == {"sum", "store1", "last", "sumrun"}
+AccsAll == {"sum", "store1", "last", "cnt", "sumrun"}
 
 RECURSIVE Pres(_)
 Pres(n) == IF n = 0 THEN {<<>>}
@@ -128,14 +132,19 @@ FillBlock(pre, l, vs) ==
 \* copy a branch that is neither first nor last sees what the sibling before it did to the contexts in place
 Touched(v) == IF v.h THEN [v EXCEPT !.c = @ \cup {"variable"}] ELSE v
 Given(blk) == IF CopyMode = "shared" /\ place = "middle" THEN [j \in 1..Len(blk) |-> Touched(blk[j])] ELSE blk
+\* the sibling S listed before the chain raises LenaStopFill in the block that holds the value with index SibStop
+SibStop == 1
+SiblingStopsInBlock == place = "afterstop" /\ N > SibStop /\ pos - Len(buf) <= SibStop /\ SibStop < pos
 SplitFill == /\ drv = "split" /\ phase = "fill"
              /\ IF ~active THEN UNCHANGED <<locs, aloc, reach, stopped, active, out, computes, stopAt>>
                 ELSE LET r == FillBlock(ch.pre, locs, Given(buf))
-                         a2 == AccFillAll(ch.acc, aloc, r.reach) IN
+                         a2 == AccFillAll(ch.acc, aloc, r.reach)
+                         \* with a flag shared by the block a stop of the sibling before counts for this branch too
+                         gone == r.stop \/ (StopFlag = "per_buffer" /\ SiblingStopsInBlock) IN
                      /\ locs' = r.locs /\ aloc' = a2 /\ reach' = reach \o r.reach
-                     /\ stopped' = r.stop /\ active' = ~r.stop
+                     /\ stopped' = r.stop /\ active' = ~gone
                      /\ stopAt' = (IF r.stop THEN pos - Len(buf) + r.n ELSE None)
-                     /\ IF r.stop THEN /\ out' = Sem2(ch.post, AccCompute(ch.acc, a2)) /\ computes' = computes + 1
+                     /\ IF gone THEN /\ out' = Sem2(ch.post, AccCompute(ch.acc, a2)) /\ computes' = computes + 1
                         ELSE UNCHANGED <<out, computes>>
              /\ phase' = "read"
              /\ Scenario /\ UNCHANGED <<pos, buf>>
